@@ -1,0 +1,24 @@
+//go:build verif
+
+// Package verifhook marks linearization and crash points of the write paths for
+// the external verification harness (build tag "verif").
+package verifhook
+
+import "sync/atomic"
+
+var handler atomic.Value // of func(id, arg string)
+
+// SetHandler installs (or, with nil, removes) the function called at every point.
+func SetHandler(h func(id string, arg string)) {
+	if h == nil {
+		h = func(string, string) {}
+	}
+	handler.Store(h)
+}
+
+// Point marks that the calling goroutine reached the named point.
+func Point(id string, arg string) {
+	if h, ok := handler.Load().(func(string, string)); ok {
+		h(id, arg)
+	}
+}
